@@ -50,6 +50,19 @@ class C18(Property):
                         cases.append(Case("%sp%d" % (gid, j), opts, base, env=e3,
                                           unset=[e for e in all_env if e not in [a for a, _ in e3]] + UNDECLARED,
                                           tags={"role": "present", "group": gid, "var": var, "val": val}))
+                # (4) an item with several declared variables, absent from the line: which ONE of them is set does not matter
+                multi = [x for x in envd if len(x["n"]["env"]) >= 2 and x not in present]
+                if multi:
+                    x = rng.choice(multi)
+                    ty = x["ty"] if x["k"] == "arg" else "string"
+                    val = rng.choice(ENVVALS[ty])
+                    own = [e.encode() for e in x["n"]["env"]]
+                    env2 = [(a, b) for a, b in env if a not in own]
+                    for j, var in enumerate(own[:2]):
+                        e3 = env2 + [(var, val)]
+                        cases.append(Case("%sm%d" % (gid, j), opts, base, env=e3,
+                                          unset=[e for e in all_env if e not in [a for a, _ in e3]] + UNDECLARED,
+                                          tags={"role": "multi", "group": gid, "var": var, "val": val}))
                 # (3) an env-backed argument absent from the line with the variable set  ==  the same line with
                 #     `--name=value` added and the variable unset (single-valued contexts and repetitions alike)
                 absent = [x for x in envd if x["k"] == "arg" and x not in present and (x["n"]["long"] or len(x["n"]["short"][0].encode()) == 1)]
@@ -109,6 +122,15 @@ class C18(Property):
                     out.append(Finding("violation", c, "the item is on the command line, yet its variable %r=%r changed the outcome: "
                                                        "%s  vs  %s" % (c.tags["var"], c.tags["val"], common.show(impl.get(pres[0].id)),
                                                                        common.show(impl.get(c.id))), related=[pres[0]]))
+            mul = roles.get("multi", [])
+            if len(mul) == 2:
+                dist["which-variable"] = dist.get("which-variable", 0) + 1
+                nontrivial.append(mul[0].line())
+                if not common.same_outcome(impl.get(mul[0].id), impl.get(mul[1].id)):
+                    out.append(Finding("violation", mul[1], "an absent item declares the variables %r and %r; with only the second one "
+                                                            "set (=%r) the outcome differs from only the first one set: %s  vs  %s"
+                                       % (mul[0].tags["var"], mul[1].tags["var"], mul[1].tags["val"],
+                                          common.show(impl.get(mul[0].id)), common.show(impl.get(mul[1].id))), related=[mul[0]]))
             if roles.get("envset") and roles.get("lineset"):
                 e, l = roles["envset"][0], roles["lineset"][0]
                 dist["env=line"] = dist.get("env=line", 0) + 1
